@@ -16,7 +16,7 @@ VERIF = build.VERIF
 EVID = os.path.join(VERIF, "evidence")
 REPLAYS = os.path.join(VERIF, "replays")
 CORPUS = os.path.join(VERIF, "corpus")
-WORK = os.path.join(VERIF, "build", "work")
+WORK = os.path.join(build.BUILD, "work")
 KNOWN = os.path.join(VERIF, "known_findings.json")
 
 SAN_ENV = {
